@@ -17,14 +17,14 @@ package align
 //@ func SubstitutionMatrix.Symmetrical
 //@   props C20
 //@   fresh-result
-//@   let conflict := exists a int, b int :: a != b && has(m, key2(a, b)) && has(m, key2(b, a)) && m[key2(a, b)] != m[key2(b, a)]
+//@   let conflict := exists a int, b int :: isByte(a) && isByte(b) && a != b && has(m, key2(a, b)) && has(m, key2(b, a)) && m[key2(a, b)] != m[key2(b, a)]
 //@   panics conflict
-//@   ensures forall a int, b int :: has(result, key2(a, b)) <==> (has(m, key2(a, b)) || has(m, key2(b, a)))
-//@   ensures forall a int, b int :: has(m, key2(a, b)) ==> result[key2(a, b)] == m[key2(a, b)] && result[key2(b, a)] == m[key2(a, b)]
+//@   ensures forall a int, b int :: isByte(a) && isByte(b) ==> (has(result, key2(a, b)) <==> (has(m, key2(a, b)) || has(m, key2(b, a))))
+//@   ensures forall a int, b int :: isByte(a) && isByte(b) && has(m, key2(a, b)) ==> result[key2(a, b)] == m[key2(a, b)] && result[key2(b, a)] == m[key2(a, b)]
 //@   loop 1
-//@     invariant forall a int, b int :: has(result, key2(a, b)) <==> (seen(key2(a, b)) || seen(key2(b, a)))
-//@     invariant forall a int, b int :: seen(key2(a, b)) ==> result[key2(a, b)] == m[key2(a, b)] && result[key2(b, a)] == m[key2(a, b)]
-//@     invariant forall a int, b int :: seen(key2(a, b)) && a != b && has(m, key2(b, a)) ==> m[key2(a, b)] == m[key2(b, a)]
+//@     invariant forall a int, b int :: isByte(a) && isByte(b) ==> (has(result, key2(a, b)) <==> (seen(key2(a, b)) || seen(key2(b, a))))
+//@     invariant forall a int, b int :: isByte(a) && isByte(b) && seen(key2(a, b)) ==> result[key2(a, b)] == m[key2(a, b)] && result[key2(b, a)] == m[key2(a, b)]
+//@     invariant forall a int, b int :: isByte(a) && isByte(b) && seen(key2(a, b)) && a != b && has(m, key2(b, a)) ==> m[key2(a, b)] == m[key2(b, a)]
 
 // ---- dynamic programming (C08, C09) ----
 // Scores are reals (float64 idealised); i/bn, i%bn and an*bn are the
@@ -46,7 +46,11 @@ package align
 
 //@ func Global
 //@   props C08 C09
+//@   witness blocks
 //@   let G := 255
+//@   ensures len(blocks) == imul(len(a) + 1, len(b) + 1)
+//@   ensures forall c int :: 0 <= c && c < len(blocks) ==> cellG(fieldarr(blocks, score), fieldarr(blocks, step), a, b, len(b) + 1, mapval(m), c)
+//@   ensures result.1 == blocks[len(blocks) - 1].score
 //@   requires has(m, key2(G, G))
 //@   requires forall p int :: 0 <= p && p < len(a) ==> has(m, key2(a[p], G))
 //@   requires forall q int :: 0 <= q && q < len(b) ==> has(m, key2(G, b[q]))
@@ -70,7 +74,11 @@ package align
 
 //@ func Local
 //@   props C08 C09
+//@   witness blocks
 //@   let G := 255
+//@   ensures len(blocks) == imul(len(a) + 1, len(b) + 1)
+//@   ensures forall c int :: 0 <= c && c < len(blocks) ==> cellL(fieldarr(blocks, score), fieldarr(blocks, step), a, b, len(b) + 1, mapval(m), c) && blocks[c].score >= 0.0
+//@   ensures forall c int :: 0 <= c && c < len(blocks) ==> blocks[c].score <= result.3
 //@   requires has(m, key2(G, G)) && m[key2(G, G)] <= 0.0
 //@   requires forall p int :: 0 <= p && p < len(a) ==> has(m, key2(a[p], G)) && m[key2(a[p], G)] <= 0.0
 //@   requires forall q int :: 0 <= q && q < len(b) ==> has(m, key2(G, b[q])) && m[key2(G, b[q])] <= 0.0
@@ -99,3 +107,84 @@ package align
 //@     decreases i
 //@   loop 2
 //@     invariant 0 <= i
+
+// ---- shipped matrices (C09) ----
+
+//@ global Levenshtein
+//@   props C09
+//@   invariant forall x int, y int :: {key2(x, y)} 0 <= x && x < 256 && 0 <= y && y < 256 ==>
+//@               has(Levenshtein, key2(x, y)) && Levenshtein[key2(x, y)] == (x == y ? 0.0 : 0.0 - 1.0)
+//@   established-by init#4
+
+//@ func init#4
+//@   props C09
+//@   loop 1
+//@     invariant 0 <= i && i <= 256 && !isnil(Levenshtein)
+//@     invariant forall x int, y int :: {key2(x, y)} 0 <= x && x < i && 0 <= y && y < 256 ==>
+//@                 has(Levenshtein, key2(x, y)) && Levenshtein[key2(x, y)] == (x == y ? 0.0 : 0.0 - 1.0)
+//@   loop 2
+//@     invariant 0 <= j && j <= 256 && 0 <= i && i < 256 && !isnil(Levenshtein)
+//@     invariant forall x int, y int :: {key2(x, y)} 0 <= x && x < i && 0 <= y && y < 256 ==>
+//@                 has(Levenshtein, key2(x, y)) && Levenshtein[key2(x, y)] == (x == y ? 0.0 : 0.0 - 1.0)
+//@     invariant forall y int :: {key2(i, y)} 0 <= y && y < j ==>
+//@                 has(Levenshtein, key2(i, y)) && Levenshtein[key2(i, y)] == (i == y ? 0.0 : 0.0 - 1.0)
+
+//@ global BLOSUM45
+//@   props C09
+//@   invariant forall x int, y int :: {key2(x, y)} isProtG(x) && isProtG(y) ==> has(BLOSUM45, key2(x, y)) && BLOSUM45[key2(x, y)] == BLOSUM45[key2(y, x)]
+//@   invariant BLOSUM45[key2(255, 255)] == 0.0
+//@   invariant forall x int :: {key2(x, 255)} isProtG(x) ==> BLOSUM45[key2(x, 255)] <= 0.0 && BLOSUM45[key2(255, x)] <= 0.0
+//@   established-by init#1
+
+//@ func init#1
+//@   props C09
+
+//@ global BLOSUM62
+//@   props C09
+//@   invariant forall x int, y int :: {key2(x, y)} isProtG(x) && isProtG(y) ==> has(BLOSUM62, key2(x, y)) && BLOSUM62[key2(x, y)] == BLOSUM62[key2(y, x)]
+//@   invariant BLOSUM62[key2(255, 255)] == 0.0
+//@   invariant forall x int :: {key2(x, 255)} isProtG(x) ==> BLOSUM62[key2(x, 255)] <= 0.0 && BLOSUM62[key2(255, x)] <= 0.0
+//@   established-by init#2
+
+//@ func init#2
+//@   props C09
+
+//@ global BLOSUM80
+//@   props C09
+//@   invariant forall x int, y int :: {key2(x, y)} isProtG(x) && isProtG(y) ==> has(BLOSUM80, key2(x, y)) && BLOSUM80[key2(x, y)] == BLOSUM80[key2(y, x)]
+//@   invariant BLOSUM80[key2(255, 255)] == 0.0
+//@   invariant forall x int :: {key2(x, 255)} isProtG(x) ==> BLOSUM80[key2(x, 255)] <= 0.0 && BLOSUM80[key2(255, x)] <= 0.0
+//@   established-by init#3
+
+//@ func init#3
+//@   props C09
+
+//@ global PAM120
+//@   props C09
+//@   invariant forall x int, y int :: {key2(x, y)} isProtG(x) && isProtG(y) ==> has(PAM120, key2(x, y)) && PAM120[key2(x, y)] == PAM120[key2(y, x)]
+//@   invariant PAM120[key2(255, 255)] == 0.0
+//@   invariant forall x int :: {key2(x, 255)} isProtG(x) ==> PAM120[key2(x, 255)] <= 0.0 && PAM120[key2(255, x)] <= 0.0
+//@   established-by init#5
+
+//@ func init#5
+//@   props C09
+
+//@ global PAM160
+//@   props C09
+//@   invariant forall x int, y int :: {key2(x, y)} isProtG(x) && isProtG(y) ==> has(PAM160, key2(x, y)) && PAM160[key2(x, y)] == PAM160[key2(y, x)]
+//@   invariant PAM160[key2(255, 255)] == 0.0
+//@   invariant forall x int :: {key2(x, 255)} isProtG(x) ==> PAM160[key2(x, 255)] <= 0.0 && PAM160[key2(255, x)] <= 0.0
+//@   established-by init#6
+
+//@ func init#6
+//@   props C09
+
+//@ global PAM250
+//@   props C09
+//@   invariant forall x int, y int :: {key2(x, y)} isProtG(x) && isProtG(y) ==> has(PAM250, key2(x, y)) && PAM250[key2(x, y)] == PAM250[key2(y, x)]
+//@   invariant PAM250[key2(255, 255)] == 0.0
+//@   invariant forall x int :: {key2(x, 255)} isProtG(x) ==> PAM250[key2(x, 255)] <= 0.0 && PAM250[key2(255, x)] <= 0.0
+//@   established-by init#7
+
+//@ func init#7
+//@   props C09
